@@ -1,1 +1,130 @@
 // Kani contract harnesses for /repo/parquet/src/arrow/arrow_reader/selection/selector.rs (child module: sees private items via super::)
+//
+// View (C06): a run-length selection denotes a set of row positions; `sel(v, p)` says whether position p is
+// selected (false beyond the end), `total(v)` is the number of positions covered, `rank(v, p)` the number of
+// selected positions strictly before p. Contracts are checked POINTWISE at a symbolic position p, so run LENGTHS are
+// full-range usize (precondition: each run <= usize::MAX/16, so sums of <= 4 runs cannot overflow -- the callers'
+// invariant is that totals are row counts of a row group); only the NUMBER of selectors is bounded, and it is
+// concrete per harness (it sizes the Vec allocations).
+use super::*;
+
+const RUN_MAX: usize = usize::MAX >> 4;
+
+fn total(v: &[RowSelector]) -> usize { let mut t = 0usize; for s in v { t += s.row_count; } t }
+fn selected_total(v: &[RowSelector]) -> usize { let mut t = 0usize; for s in v { if !s.skip { t += s.row_count; } } t }
+/// is position p selected
+fn sel(v: &[RowSelector], p: usize) -> bool {
+    let mut start = 0usize;
+    for s in v { if p < start + s.row_count { return !s.skip; } start += s.row_count; }
+    false
+}
+/// number of selected positions strictly below p
+fn rank(v: &[RowSelector], p: usize) -> usize {
+    let (mut start, mut r) = (0usize, 0usize);
+    for s in v {
+        if p <= start { break; }
+        let covered = if p - start < s.row_count { p - start } else { s.row_count };
+        if !s.skip { r += covered; }
+        start += s.row_count;
+    }
+    r
+}
+fn any_selectors<const N: usize>() -> Vec<RowSelector> {
+    let mut a = [RowSelector { row_count: 0, skip: false }; N];
+    let mut i = 0;
+    while i < N { let c: usize = kani::any(); kani::assume(c <= RUN_MAX); a[i] = RowSelector { row_count: c, skip: kani::any() }; i += 1; }
+    a.to_vec()
+}
+
+// Contract (C06): split_off_selectors(v, n) = (head, tail) with
+//   total(head) = min(n, total(v)), total(head) + total(tail) = total(v), and for every position p:
+//   p < total(head): sel(head, p) = sel(v, p);   otherwise sel(tail, p - total(head)) = sel(v, p).
+// i.e. positions(head) = positions(v) ∩ [0, n) and positions(tail) = positions(v) shifted down by n.
+macro_rules! split_off_unit {
+    ($name:ident, $n:expr) => {
+        #[kani::proof]
+        #[kani::unwind(6)]
+        fn $name() {
+            let v = any_selectors::<$n>();
+            let n: usize = kani::any();
+            let orig = v.clone();
+            let (head, tail) = split_off_selectors(v, n);
+            let th = total(&head);
+            assert!(th == if n < total(&orig) { n } else { total(&orig) });
+            assert!(th + total(&tail) == total(&orig));
+            let p: usize = kani::any();
+            if p < th { assert!(sel(&head, p) == sel(&orig, p)); }
+            else { assert!(sel(&tail, p - th) == sel(&orig, p)); }
+            kani::cover!(head.len() == $n && tail.len() == 1);            // a run was split in two
+            kani::cover!(tail.is_empty());
+            kani::cover!(head.is_empty());
+        }
+    };
+}
+// @unit name=split_off_selectors_n1 props=C06 kind=bounded bound=exactly_1_selector_(run_lengths_unbounded) fns=split_off_selectors timeout=600
+split_off_unit!(split_off_selectors_n1, 1);
+// @unit name=split_off_selectors_n2 props=C06 kind=bounded bound=exactly_2_selectors_(run_lengths_unbounded) fns=split_off_selectors mem=4 timeout=900
+split_off_unit!(split_off_selectors_n2, 2);
+// @unit name=split_off_selectors_n3 props=C06 kind=bounded bound=exactly_3_selectors_(run_lengths_unbounded) fns=split_off_selectors tier=thorough mem=8 timeout=1800 confirmed=no_(not_seen_to_finish_under_load)
+split_off_unit!(split_off_selectors_n3, 3);
+
+// Contract (C06): limit_selectors(v, k) keeps exactly the first k selected positions:
+//   for every p: sel(out, p) <=> sel(v, p) and rank(v, p) < k;  total(out) <= total(v);
+//   selected_total(out) = min(k, selected_total(v)).
+macro_rules! limit_unit {
+    ($name:ident, $n:expr) => {
+        #[kani::proof]
+        #[kani::unwind(6)]
+        fn $name() {
+            let v = any_selectors::<$n>();
+            let k: usize = kani::any();
+            let orig = v.clone();
+            let out = limit_selectors(v, k);
+            let sv = selected_total(&orig);
+            assert!(selected_total(&out) == if k < sv { k } else { sv });
+            assert!(total(&out) <= total(&orig));
+            let p: usize = kani::any();
+            assert!(sel(&out, p) == (sel(&orig, p) && rank(&orig, p) < k));
+            kani::cover!($n == 1 || (out.len() < $n && k > 0));
+            kani::cover!(out.len() == $n && k < sv);          // last run shortened
+            kani::cover!(k >= sv && sv > 0);
+            kani::cover!(k == 0);
+        }
+    };
+}
+// @unit name=limit_selectors_n1 props=C06 kind=bounded bound=exactly_1_selector fns=limit_selectors timeout=600 tier=thorough
+limit_unit!(limit_selectors_n1, 1);
+// @unit name=limit_selectors_n2 props=C06 kind=bounded bound=exactly_2_selectors fns=limit_selectors timeout=600
+limit_unit!(limit_selectors_n2, 2);
+// @unit name=limit_selectors_n3 props=C06 kind=bounded bound=exactly_3_selectors fns=limit_selectors mem=4 timeout=900
+limit_unit!(limit_selectors_n3, 3);
+
+// Contract (C06): offset_selectors(v, k) clears exactly the first k selected positions:
+//   for every p: sel(out, p) <=> sel(v, p) and rank(v, p) >= k;
+//   total(out) = total(v) when some selected position survives (k < selected_total(v)), otherwise out is empty.
+macro_rules! offset_unit {
+    ($name:ident, $n:expr) => {
+        #[kani::proof]
+        #[kani::unwind(6)]
+        fn $name() {
+            let v = any_selectors::<$n>();
+            let k: usize = kani::any();
+            let orig = v.clone();
+            let out = offset_selectors(v, k);
+            let sv = selected_total(&orig);
+            if k < sv { assert!(total(&out) == total(&orig)); assert!(selected_total(&out) == sv - k); }
+            else { assert!(out.is_empty()); }
+            let p: usize = kani::any();
+            assert!(sel(&out, p) == (sel(&orig, p) && rank(&orig, p) >= k));
+            kani::cover!(k < sv && k > 0);
+            kani::cover!(k >= sv);
+            kani::cover!(out.len() == $n + 1);
+        }
+    };
+}
+// @unit name=offset_selectors_n1 props=C06 kind=bounded bound=exactly_1_selector fns=offset_selectors timeout=600 tier=thorough confirmed=no_(not_seen_to_finish_under_load)
+offset_unit!(offset_selectors_n1, 1);
+// @unit name=offset_selectors_n2 props=C06 kind=bounded bound=exactly_2_selectors fns=offset_selectors mem=6 timeout=900 tier=thorough confirmed=no_(not_seen_to_finish_under_load)
+offset_unit!(offset_selectors_n2, 2);
+// @unit name=offset_selectors_n3 props=C06 kind=bounded bound=exactly_3_selectors fns=offset_selectors tier=thorough mem=8 timeout=1800 confirmed=no_(not_seen_to_finish_under_load)
+offset_unit!(offset_selectors_n3, 3);
